@@ -10,12 +10,12 @@
 __CPROVER_requires(__CPROVER_r_ok(s, 1) && verif_strlen(s) < VERIF_LOOKUP_CAP)
 /*@ clause frame src=property props=C14 */
 __CPROVER_assigns()
-/*@ clause post.range src=property props=C18,C05,C10,C13 */
+/*@ clause post.range src=property props=C18,C05,C10,C13 only=enforce */
 __CPROVER_ensures(__CPROVER_return_value == -1 ||
                   (0 <= __CPROVER_return_value && __CPROVER_return_value < verif_strlen(s)))
-/*@ clause post.match src=property props=C18,C05,C10 */
+/*@ clause post.match src=property props=C18,C05,C10 only=enforce */
 __CPROVER_ensures(__CPROVER_return_value == -1 || s[__CPROVER_return_value] == (char)verif_toupper(c))
-/*@ clause post.first src=property props=C18 */
+/*@ clause post.first src=property props=C18 only=enforce */
 __CPROVER_ensures(!(verif_ghost_idx < (size_t)verif_strlen(s)) ||
                   (__CPROVER_return_value != -1 && verif_ghost_idx >= (size_t)__CPROVER_return_value) ||
                   s[verif_ghost_idx] != (char)verif_toupper(c))
